@@ -23,7 +23,7 @@ QUICK_SHARDS = 1
 NO_OPTIMIZED_FLAVOUR = True      # the hosts are subprocesses of their own; the -O / -OO interpreters are among them
 THOROUGH_SHARDS = 1
 HOSTS = ('real', 'darwin', 'scrambled', 'permuted', 'bsdlike', 'windowslike', 'real-hashseed-1', 'real-hashseed-4711', 'real-ascii-console',
-         'real-python-O', 'real-python-OO')
+         'real-python-O', 'real-python-OO', 'real-python-Werror', 'real-tty')
 
 
 SCRATCH = [None]       # working directory and HOME of the host runs (so that relative and per-user paths are harmless)
@@ -52,8 +52,35 @@ def run_host(host, seed):
     flags = []
     if host.startswith('real-python-'):
         # how the interpreter was started is part of the machine: -O compiles asserts away, -OO strips docstrings too
-        flags = [host.rsplit('-', 1)[1].join(('-', ''))]
+        # (-W error: a warning - a deprecated call, an invalid escape - raises instead of printing.  Not -bb: the event
+        # listing prints its payload with str(bytes) on purpose, which that debugging switch forbids.)
+        flags = ['-W', 'error'] if host.endswith('Werror') else [host.rsplit('-', 1)[1].join(('-', ''))]
         host = 'real'
+    if host == 'real-tty':
+        # standard input / output / error are a terminal (a pseudo terminal, TERM set): what the tool computes must not
+        # follow what it is connected to.  The result comes back through a file.
+        import pty
+        import tempfile
+        master, slave = pty.openpty()
+        fd, out_path = tempfile.mkstemp(prefix='verif-c18-tty-', suffix='.json')
+        os.close(fd)
+        env.update({'VERIF_OUT': out_path, 'TERM': 'xterm-256color'})
+        env.pop('NO_COLOR', None)
+        try:
+            p = subprocess.run([sys.executable, '-m', 'vlib.hostswap', 'real', str(seed)], env=env, stdin=slave, stdout=slave,
+                               stderr=slave, timeout=600, cwd=os.path.join(SCRATCH[0], 'cwd') if SCRATCH[0] else None)
+            os.close(slave)
+            if p.returncode != 0:
+                try:
+                    tail = os.read(master, 4000).decode('utf-8', 'replace')
+                except OSError:
+                    tail = ''
+                raise core.Inconclusive(f'host real-tty workload failed: {tail[-600:]}')
+            with open(out_path) as f:
+                return json.load(f)
+        finally:
+            os.close(master)
+            os.unlink(out_path)
     p = subprocess.run([sys.executable] + flags + ['-m', 'vlib.hostswap', host, str(seed)], env=env, capture_output=True,
                        text=True, timeout=600, cwd=os.path.join(SCRATCH[0], 'cwd') if SCRATCH[0] else None)
     if p.returncode != 0:
@@ -61,6 +88,7 @@ def run_host(host, seed):
     return json.loads(p.stdout)
 
 
+ANSI_RE = re.compile(r'\x1b\[[0-9;]*m')
 ERR_RE = re.compile(r'errno: (?:([A-Za-z0-9_]+)\((\d+)\)|(\d+))')
 
 
@@ -237,6 +265,10 @@ def run_one(res, ctx, seed):
                 continue
             for (k, a), (_, b) in zip(items, oitems):
                 res.count('cross_host_comparisons')
+                if host == 'real-tty' and isinstance(a, str) and isinstance(b, str):
+                    # whether escape sequences are emitted may follow the terminal (termcolor does, like ls --color=auto);
+                    # the TEXT may not: compared with the escape sequences removed
+                    a, b = ANSI_RE.sub('', a), ANSI_RE.sub('', b)
                 if a != b:
                     res.violation(f'c18-host-dependent-{section}', f'{section}[{k}]: {a!r} on the real host, {b!r} on the '
                                   f'{host} host', {'section': section, 'case': k, 'host': host})
